@@ -509,73 +509,62 @@ impl QueryFilter {
         }
     }
 
-    /// Apply a comparison predicate to a column
+    /// Apply a comparison predicate to a column.
+    ///
+    /// The column and the literal are brought to a common type with DataFusion's
+    /// comparison coercion and compared with Arrow's comparison kernels, i.e. the
+    /// same way the historical part of the query evaluates the comparison. A
+    /// comparison whose result is NULL (NULL cell or NULL literal) selects no row.
     fn apply_comparison(
         pred: &ColumnPredicate,
         column: &dyn arrow_array::Array,
         val: &PredicateValue,
         mask: &mut [bool],
     ) {
-        match val {
-            PredicateValue::String(expected) => {
-                if let Some(arr) = column.as_string_opt::<i32>() {
-                    for (i, m) in mask.iter_mut().enumerate() {
-                        if *m {
-                            *m = match (pred, arr.is_null(i)) {
-                                (_, true) => false,
-                                (ColumnPredicate::Eq(..), _) => arr.value(i) == expected.as_str(),
-                                (ColumnPredicate::NotEq(..), _) => {
-                                    arr.value(i) != expected.as_str()
-                                }
-                                (ColumnPredicate::Lt(..), _) => arr.value(i) < expected.as_str(),
-                                (ColumnPredicate::LtEq(..), _) => arr.value(i) <= expected.as_str(),
-                                (ColumnPredicate::Gt(..), _) => arr.value(i) > expected.as_str(),
-                                (ColumnPredicate::GtEq(..), _) => arr.value(i) >= expected.as_str(),
-                                _ => false,
-                            };
-                        }
-                    }
-                }
+        use arrow::compute::kernels::cmp;
+        use datafusion::logical_expr::type_coercion::binary::comparison_coercion;
+        use datafusion::scalar::ScalarValue;
+
+        let literal = match val {
+            PredicateValue::String(s) => ScalarValue::Utf8(Some(s.clone())),
+            PredicateValue::Int64(i) => ScalarValue::Int64(Some(*i)),
+            PredicateValue::Float64(f) => ScalarValue::Float64(Some(*f)),
+            PredicateValue::Boolean(b) => ScalarValue::Boolean(Some(*b)),
+            PredicateValue::Null => ScalarValue::Null,
+        };
+
+        // Without a common type DataFusion rejects the query, so there is nothing to enforce.
+        let Some(common_type) = comparison_coercion(column.data_type(), &literal.data_type())
+        else {
+            return;
+        };
+        let Ok(lhs) = arrow::compute::cast(column, &common_type) else {
+            return;
+        };
+        let Ok(rhs) = literal
+            .cast_to(&common_type)
+            .and_then(|scalar| scalar.to_scalar())
+        else {
+            return;
+        };
+
+        let result = match pred {
+            ColumnPredicate::Eq(..) => cmp::eq(&lhs, &rhs),
+            ColumnPredicate::NotEq(..) => cmp::neq(&lhs, &rhs),
+            ColumnPredicate::Lt(..) => cmp::lt(&lhs, &rhs),
+            ColumnPredicate::LtEq(..) => cmp::lt_eq(&lhs, &rhs),
+            ColumnPredicate::Gt(..) => cmp::gt(&lhs, &rhs),
+            ColumnPredicate::GtEq(..) => cmp::gt_eq(&lhs, &rhs),
+            _ => return,
+        };
+        let Ok(result) = result else {
+            return;
+        };
+
+        for (i, m) in mask.iter_mut().enumerate() {
+            if *m {
+                *m = result.is_valid(i) && result.value(i);
             }
-            PredicateValue::Int64(expected) => {
-                if let Some(arr) = column.as_primitive_opt::<arrow_array::types::Int64Type>() {
-                    for (i, val_opt) in arr.iter().enumerate() {
-                        if mask[i] {
-                            mask[i] = match (pred, val_opt) {
-                                (ColumnPredicate::Eq(..), Some(v)) => v == *expected,
-                                (ColumnPredicate::NotEq(..), Some(v)) => v != *expected,
-                                (ColumnPredicate::Lt(..), Some(v)) => v < *expected,
-                                (ColumnPredicate::LtEq(..), Some(v)) => v <= *expected,
-                                (ColumnPredicate::Gt(..), Some(v)) => v > *expected,
-                                (ColumnPredicate::GtEq(..), Some(v)) => v >= *expected,
-                                _ => false,
-                            };
-                        }
-                    }
-                }
-            }
-            PredicateValue::Float64(expected) => {
-                if let Some(arr) = column.as_primitive_opt::<arrow_array::types::Float64Type>() {
-                    for (i, val_opt) in arr.iter().enumerate() {
-                        if mask[i] {
-                            mask[i] = match (pred, val_opt) {
-                                (ColumnPredicate::Eq(..), Some(v)) => {
-                                    (v - expected).abs() < f64::EPSILON
-                                }
-                                (ColumnPredicate::NotEq(..), Some(v)) => {
-                                    (v - expected).abs() >= f64::EPSILON
-                                }
-                                (ColumnPredicate::Lt(..), Some(v)) => v < *expected,
-                                (ColumnPredicate::LtEq(..), Some(v)) => v <= *expected,
-                                (ColumnPredicate::Gt(..), Some(v)) => v > *expected,
-                                (ColumnPredicate::GtEq(..), Some(v)) => v >= *expected,
-                                _ => false,
-                            };
-                        }
-                    }
-                }
-            }
-            _ => {} // Boolean/Null: no-op for streaming filters
         }
     }
 
